@@ -7,11 +7,11 @@ use crate::{
     tcp::{IpVersion, PayloadSize, Quirk, Signature as TcpSignature, TcpOption, Ttl, WindowSize},
 };
 use nom::branch::alt;
-use nom::bytes::complete::{take_until, take_while};
+use nom::bytes::complete::{take_until, take_while, take_while1};
 use nom::character::complete::{alpha1, char, digit1};
 use nom::combinator::{map, map_res, opt};
 use nom::multi::{separated_list0, separated_list1};
-use nom::sequence::{pair, separated_pair, terminated};
+use nom::sequence::{delimited, pair, separated_pair, terminated};
 use nom::*;
 use nom::{
     bytes::complete::tag,
@@ -45,29 +45,11 @@ impl FromStr for Database {
             }
 
             if line.starts_with("classes") {
-                classes.append(
-                    &mut parse_classes(line)
-                        .map_err(|err| {
-                            DatabaseError::Parse(format!("fail to parse `classes`: {line}, {err}"))
-                        })?
-                        .1,
-                );
+                classes.append(&mut whole_line("classes", line, parse_classes(line))?);
             } else if line.starts_with("ua_os") {
-                ua_os_entries.append(
-                    &mut parse_ua_os(line)
-                        .map_err(|err| {
-                            DatabaseError::Parse(format!("fail to parse `ua_os`: {line}, {err}"))
-                        })?
-                        .1,
-                );
+                ua_os_entries.append(&mut whole_line("ua_os", line, parse_ua_os(line))?);
             } else if line.starts_with('[') && line.ends_with(']') {
-                cur_mod = Some(
-                    parse_module(line)
-                        .map_err(|err| {
-                            DatabaseError::Parse(format!("fail to parse `module`: {line}, {err}"))
-                        })?
-                        .1,
-                );
+                cur_mod = Some(whole_line("module", line, parse_module(line))?);
             } else if let Some((module, direction)) = cur_mod.as_ref() {
                 let (_, (name, value)) = parse_named_value(line).map_err(|err| {
                     DatabaseError::Parse(format!("fail to parse named value: {line}, {err}"))
@@ -228,6 +210,20 @@ impl_from_str!(PayloadSize, parse_payload_size);
 impl_from_str!(HttpSignature, parse_http_signature);
 impl_from_str!(HttpHeader, parse_http_header);
 
+/// A line-level parser must account for the whole line: text it leaves unparsed makes the line invalid.
+fn whole_line<T>(what: &str, line: &str, parsed: IResult<&str, T>) -> Result<T, DatabaseError> {
+    let (remaining, value) = parsed
+        .map_err(|err| DatabaseError::Parse(format!("fail to parse `{what}`: {line}, {err}")))?;
+
+    if remaining.is_empty() {
+        Ok(value)
+    } else {
+        Err(DatabaseError::Parse(format!(
+            "fail to parse `{what}`: {line}, unexpected text: {remaining}"
+        )))
+    }
+}
+
 fn parse_named_value(input: &str) -> IResult<&str, (&str, &str)> {
     let (input, (name, _, _, _, value)) =
         (alphanumeric1, space0, tag("="), space0, rest).parse(input)?;
@@ -275,12 +271,18 @@ fn parse_ua_os(input: &str) -> IResult<&str, Vec<(String, Option<String>)>> {
     Ok((input, result))
 }
 
-fn parse_key_value(input: &str) -> IResult<&str, (&str, Option<&str>)> {
-    let (input, (name, _, value)) =
-        (alphanumeric1, space0, opt(preceded((space0, tag("="), space0), alphanumeric1)))
-            .parse(input)?;
+/// Characters of names in `ua_os` rules, as in p0f: alphanumerics and ` ./-_!?()`.
+fn is_name_char(c: char) -> bool {
+    c.is_ascii_alphanumeric() || " ./-_!?()".contains(c)
+}
 
-    Ok((input, (name, value)))
+/// One `ua_os` rule: `name` or `name=[value]`.
+fn parse_key_value(input: &str) -> IResult<&str, (&str, Option<&str>)> {
+    pair(
+        take_while1(is_name_char),
+        opt(delimited(tag("=["), take_while1(is_name_char), tag("]"))),
+    )
+    .parse(input)
 }
 
 fn parse_label(input: &str) -> IResult<&str, Label> {
